@@ -268,7 +268,7 @@ def run_job(pid, job, tier, seed, hb, runner_exe, tag=""):
     shutil.rmtree(out, ignore_errors=True)
     os.makedirs(out)
     exe = hb
-    env = dict(GOENV, VERIF_DIR=VERIF, VERIF_BUILD=BUILD, VERIF_REPO=REPO)
+    env = dict(GOENV, VERIF_DIR=VERIF, VERIF_BUILD=BUILD, VERIF_REPO=REPO, VERIF_PROP=pid)
     if job.get("binary"):
         okb, ob, binpath = build_binary()
         if not okb:
